@@ -163,6 +163,7 @@ pub fn observed(cx: &PairCtx, problems: &[Problem], w: i128, b: i128) -> (Table,
         inner: slice.widened(std::cmp::max(w, b + 2)),
         consts: HashMap::new(),
         cache: RefCell::new(HashMap::new()),
+        sym_override: renamed_symbols(problems),
     };
     let mut fwd = hs.sp.zero();
     let mut bwd = hs.sp.zero();
